@@ -137,6 +137,21 @@ def rollback_case(rng, tier, seed, k):
                             if a_['A'] is None or not (torch.equal(s_['A'], a_['A']) and torch.equal(s_['G'], a_['G'])):
                                 probs.append(f'rank {r} layer {li} (schedule {pol}): a load right after state_dict() returned did not restore the factors just saved '
                                              f'(the layer file of this save did not exist yet?)')
+            if not dirmode:
+                hist_d = ([['train', 1]] * pre + [['save'], ['train', 1], ['save'], ['load_same', 0, 1], ['train', 1, 7], ['save']])
+                MARKS.clear()
+                wd = neoxrun.run(cfg, hist_d, seed=seed + k, observe=observe)
+                MARKS.clear()
+                if not wd.ok:
+                    probs.append(f'run failed (save, roll back, retrain, save): {wd.errors[:1]} {wd.deadlock} {dict(list(wd.exceptions.items())[:1])}'[:300])
+                else:
+                    for r in range(D):
+                        sd_, held_ = wd.results[r][-1]['sd'], wd.results[r][-1]['extra']
+                        for i in range(len(cfg['layers'])):
+                            s_ = sd_['layers'].get(str(i))
+                            if s_ is None or not (torch.equal(s_['A'], held_[i]['A'].cpu()) and torch.equal(s_['G'], held_[i]['G'].cpu())):
+                                probs.append(f'rank {r} layer {i}: a state saved after rolling back and retraining on other data does not hold the factors held now '
+                                             f'(the step count had been reached before with other factors)')
             for j in range(post):
                 for r in range(D):
                     ga = wa.results[r][pre + 1 + extra + 1 + j]['after']; gb = wb.results[r][pre + 2 + j]['after']
